@@ -68,8 +68,10 @@ enum OutK {
     Writer,
     Stdout,
     Stderr,
+    /// rotation whose (synchronous) cleanup compresses every rotated file at once
+    FileNumGz,
 }
-const OUTS: [OutK; 6] = [OutK::File, OutK::FileNum, OutK::FileTsD, OutK::Writer, OutK::Stdout, OutK::Stderr];
+const OUTS: [OutK; 7] = [OutK::File, OutK::FileNum, OutK::FileTsD, OutK::Writer, OutK::Stdout, OutK::Stderr, OutK::FileNumGz];
 const MODES: [ModeK; 5] = [ModeK::Direct, ModeK::SupportCapture, ModeK::BufDont(CAP), ModeK::BufFlush(CAP, 3_600_000), ModeK::Async(1, 16, 0)];
 
 fn alphabet() -> Vec<Op> {
@@ -87,10 +89,10 @@ fn e1_units() -> usize {
     MODES.len() * OUTS.len() * 2
 }
 fn units(_tier: &str) -> usize {
-    e1_units() + sched_cases().len()
+    e1_units() + sched_cases().len() + 1
 }
 fn bounds(tier: &str) -> Value {
-    json!({"e1_configurations": MODES.len() * OUTS.len(), "e1_word_length": depth(tier), "terminal_ops": 2, "e2_harnesses": sched_cases().iter().map(|c| c.name).collect::<Vec<_>>(), "e2_preemption_bound": if tier == "quick" { 2 } else { 3 }})
+    json!({"e1_configurations": MODES.len() * OUTS.len(), "e1_word_length": depth(tier), "terminal_ops": 2, "e2_harnesses": sched_cases().iter().map(|c| c.name).collect::<Vec<_>>(), "e2_preemption_bound": if tier == "quick" { 2 } else { 3 }, "stress_pass": format!("{} free-running rounds of two threads dropping the last two handle clones at the same time (sampling; auxiliary)", stress_rounds(tier))})
 }
 
 struct World {
@@ -111,13 +113,14 @@ fn build(mode: ModeK, out: OutK, in_sched: bool) -> Result<(World, Box<dyn Log>,
     let mut cfg = match out {
         OutK::FileNum => Cfg::rot(CritK::Size(40), NamingK::Numbers, CleanK::Never),
         OutK::FileTsD => Cfg::rot(CritK::Size(40), NamingK::TimestampsDirect, CleanK::Never),
+        OutK::FileNumGz => Cfg::rot(CritK::Size(40), NamingK::Numbers, CleanK::Gz(100)),
         _ => Cfg::norot(),
     };
     cfg.mode = mode;
     let mut cap = None;
     let mut rec = None;
     let lb = match out {
-        OutK::File | OutK::FileNum | OutK::FileTsD => cfg.logger(&env.dir, &env.err),
+        OutK::File | OutK::FileNum | OutK::FileTsD | OutK::FileNumGz => cfg.logger(&env.dir, &env.err),
         OutK::Writer => {
             let r = Recorder::new(LevelFilter::Trace);
             rec = Some(r.clone());
@@ -158,7 +161,7 @@ impl World {
     /// What is physically in the output right now.
     fn read(&self) -> Result<Vec<u8>, String> {
         match self.out {
-            OutK::File | OutK::FileNum | OutK::FileTsD => {
+            OutK::File | OutK::FileNum | OutK::FileTsD | OutK::FileNumGz => {
                 let scan = family::scan(&self.env.dir, &self.cfg.parts, None, self.cfg.naming(), &[]);
                 scan.stream(&self.env.dir)
             }
@@ -530,7 +533,70 @@ fn decode(unit: usize) -> (ModeK, OutK, Term) {
     (MODES[u / OUTS.len()], OUTS[u % OUTS.len()], t)
 }
 
+fn stress_rounds(tier: &str) -> usize {
+    if tier == "quick" {
+        1500
+    } else {
+        20_000
+    }
+}
+
+/// Auxiliary, free-running (sampling; decides nothing on its own): the last two clones of the
+/// handle are dropped by two threads at the same moment. The window between "am I the last one"
+/// and the release of the clone lies in drop glue, where no hook can sit, so the scheduler cannot
+/// enumerate it. After both drops every record must be in the file.
+fn stress_two_drops(rounds: usize) -> Option<(usize, String)> {
+    use std::sync::atomic::{AtomicUsize, Ordering};
+    for round in 0..rounds {
+        let env = Env::new("c04s");
+        let mut cfg = Cfg::norot();
+        cfg.mode = ModeK::BufDont(4096);
+        let Ok((logger, handle)) = cfg.logger(&env.dir, &env.err).build() else { continue };
+        lg::log_info(&*logger, "only-record");
+        let h2 = handle.clone();
+        let gate = Arc::new(AtomicUsize::new(0));
+        let mut ths = Vec::new();
+        for h in [handle, h2] {
+            let gate = Arc::clone(&gate);
+            ths.push(std::thread::spawn(move || {
+                gate.fetch_add(1, Ordering::SeqCst);
+                while gate.load(Ordering::SeqCst) < 2 {
+                    std::hint::spin_loop();
+                }
+                drop(h);
+            }));
+        }
+        for t in ths {
+            t.join().ok();
+        }
+        let got = std::fs::read(env.dir.join("app.log")).unwrap_or_default();
+        drop(logger);
+        if got != b"only-record\n" {
+            return Some((round, format!("round {round}: after both clones of the handle were dropped (concurrently, from two threads) the file holds {:?}", String::from_utf8_lossy(&got))));
+        }
+    }
+    None
+}
+
+fn run_stress_unit(tier: &str, out: &mut Out) {
+    let rounds = stress_rounds(tier);
+    let r = run_isolated(Duration::from_secs(600), move || stress_two_drops(rounds));
+    out.count("stress_rounds(sampling)", rounds as u64);
+    out.evaluations += 1;
+    let case = json!({"kind": "stress"});
+    match r {
+        Ran::Done(None) => out.outcome("stress: all records present"),
+        Ran::Done(Some((_, d))) => out.violation(Violation::new("missing-after-drop", "two-concurrent-drops/free-running", d, case)),
+        Ran::Panicked(m) => out.violation(Violation::new("panic", "two-concurrent-drops/free-running", m, case)),
+        Ran::Hung => out.violation(Violation::new("deadlock", "two-concurrent-drops/free-running", "did not finish within 600 s", case)),
+    }
+}
+
 fn run_unit(tier: &str, unit: usize, out: &mut Out) {
+    if unit >= e1_units() + sched_cases().len() {
+        run_stress_unit(tier, out);
+        return;
+    }
     if unit >= e1_units() {
         run_sched_unit(tier, unit - e1_units(), out);
         return;
@@ -571,6 +637,12 @@ fn run_unit(tier: &str, unit: usize, out: &mut Out) {
 }
 
 fn replay(case: &Value) -> Vec<Violation> {
+    if case["kind"].as_str() == Some("stress") {
+        println!("replay C04: free-running two-drop stress (sampling: a pass proves nothing)");
+        let mut out = Out::default();
+        run_stress_unit("thorough", &mut out);
+        return out.violations;
+    }
     if case["kind"].as_str() == Some("sched") {
         let idx = case["idx"].as_u64().unwrap_or(0) as usize;
         let scs = sched_cases();
